@@ -132,6 +132,9 @@ type SolverStats struct {
 
 var Stats SolverStats
 
+// LastSolverNote carries diagnostics for the next abort message.
+var LastSolverNote string
+
 // checkSat runs (check-sat) with extra assertions in an inner scope; returns "sat", "unsat" or "unknown".
 // keep=true leaves the inner scope open (for a following get-value); the caller must popInner().
 func (p *solverProc) checkSat(extra []string, keep bool) string {
@@ -241,15 +244,18 @@ func (p *solverProc) getValues(names []string, sorts []ssort) (assignment, bool)
 		p.raw("(get-value (" + strings.Join(names[i:j], " ") + "))")
 		s := p.readSexp()
 		if strings.Contains(s, "(error") {
+			LastSolverNote = "get-value error: " + s
 			return nil, false
 		}
 		vals, ok := parseGetValue(s)
 		if !ok || len(vals) != j-i {
+			LastSolverNote = "get-value unparsable: " + s
 			return nil, false
 		}
 		for k, v := range vals {
 			b, ok := parseValue(v, sorts[i+k])
 			if !ok {
+				LastSolverNote = "get-value bad value: " + v
 				return nil, false
 			}
 			env[names[i+k]] = b
